@@ -22,7 +22,13 @@ res = {}
 try:
     for p in props:
         t0 = time.time()
-        r = subprocess.run(['./check', p], cwd='/verif', capture_output=True, text=True, env=env)
+        # the evidence file of the property describes runs on /repo: keep it, a run against a seeded change must not replace it
+        evf = '/verif/evidence/%s.json' % p
+        saved = open(evf).read() if os.path.exists(evf) else None
+        try:
+            r = subprocess.run(['./check', p], cwd='/verif', capture_output=True, text=True, env=env)
+        finally:
+            if saved is not None: open(evf, 'w').write(saved)
         viol = [l for l in r.stdout.split('\n') if l.startswith('VIOLATION')]
         cex = [l.strip() for l in r.stdout.split('\n') if l.strip().startswith('counterexample')][:3]
         inc = [l.strip()[:200] for l in r.stdout.split('\n') if l.startswith('INCONCLUSIVE')][:2]
